@@ -643,6 +643,11 @@ SU_vector& SU_vector::operator=(const SU_vector& other){
       deallocate_mem();
     dim=other.dim;
     size=other.size;
+    if(size==0){ //copying an empty vector leaves this vector empty as well
+      components=nullptr;
+      isinit=false;
+      return *this;
+    }
     alloc_aligned(dim,size,components,ptr_offset);
     isinit=true;
   }
